@@ -189,6 +189,20 @@ def rule_isolation(ctx: Ctx) -> None:
     own = [s for s in ast.walk(init.node) if isinstance(s, ast.Assign) and any(norm(t) == "self.cache" for t in s.targets)]
     made = [s for s in own if any(isinstance(c, ast.Call) and dotted(c.func) == "create_cache" for c in ast.walk(Defs(init).resolve(s.value)))]
     ctx.tri("3-isolation", init, own[0] if own else init.node, bool(made), False, "every pipeline constructs its own cache object", "", "self.cache is not assigned from create_cache(...)", key="own-cache")
+    # a memoised deserialiser hands ONE object to every caller: a hit that is modified in place (by a downstream function or
+    # the caller) changes what all later hits of that entry return
+    exempt = {"pipefunc._utils._cached_load": "only reached through load(..., cache=True), which C04.1 fresh-load forbids for results"}
+    n = 0
+    for fn in P.functions.values():
+        memo = [d_ for d_ in fn.decorators if d_.rsplit(".", 1)[-1] in ("lru_cache", "cache")]
+        if not memo:
+            continue
+        n += 1
+        deser = [c for c in ast.walk(fn.node) if isinstance(c, ast.Call) and dotted(c.func).rsplit(".", 1)[-1] in ("loads", "load") and "." in dotted(c.func)]
+        ok = not deser or fn.qualname in exempt
+        ctx.add("3-isolation", fn, deser[0] if deser else fn.node, ok, f"memoised {fn.name}: " + (exempt.get(fn.qualname) or "does not deserialise") if ok else
+                f"{fn.name} is memoised (@{memo[0]}) and returns `{norm(deser[0])[:40]}`: every caller receives the same object, so a cached value that is modified in place is returned modified by every later hit", key=f"memo-deserialiser {fn.name}")
+    ctx.add("3-isolation", "pipefunc", "", True, f"{n} memoised function(s) scanned for deserialisers", key="memo-scan")
 
 
 def _splatted(ctx: Ctx, owner: FuncInfo, fnode: ast.AST, depth: int = 2) -> set[str]:
@@ -227,6 +241,16 @@ def rule_map_key(ctx: Ctx) -> None:
             for a in n.args:
                 if "hashable" in norm(d.resolve(a)):
                     keys.append(("helper", norm(d.resolve(a)), n))
+    # the key covers the keyword arguments the function is called with - all of them
+    kw_params = [p_.arg for p_ in gk.params if p_.annotation is not None and norm(p_.annotation).startswith("dict")]
+    th = [c for c in ast.walk(gk.node) if isinstance(c, ast.Call) and dotted(c.func).rsplit(".", 1)[-1] in ("to_hashable", "try_to_hashable") and c.args]
+    if th and kw_params:
+        a0 = d.resolve(th[0].args[0])
+        whole = isinstance(a0, ast.Name) and a0.id in kw_params
+        narrowed = isinstance(a0, (ast.DictComp, ast.Dict, ast.Call, ast.Subscript)) and any(isinstance(x, ast.Name) and x.id in kw_params for x in ast.walk(a0)) and (
+            not isinstance(a0, ast.Call) or dotted(a0.func) not in ("dict",) or len(a0.args) != 1)
+        ctx.tri("4-map-key", gk, th[0], whole, narrowed, f"the key is built from the whole `{kw_params[0]}` the function is called with",
+                f"the key is built from `{norm(a0)[:70]}`, not from all of `{kw_params[0]}`: two calls that differ only in what was left out share a cached value", "operand of to_hashable not recognised", key="key-covers-kwargs")
     texts = {t for _k, t, _n in keys}
     hashed = [t for t in texts if "hash(" in t.replace("to_hashable(", "")]
     ctx.tri("4-map-key", gk, keys[0][2] if keys else gk.node, len(texts) == 1 and not hashed and "to_hashable(" in next(iter(texts), ""), bool(hashed) or len(texts) > 1,
